@@ -213,8 +213,22 @@ func (l *loopInfo) invariantBound(v ssa.Value) bool {
 // readOnlyFunc: the function only inspects its arguments (no stores, map updates, sends,
 // goroutines, defers; calls only to reflect.Value read methods, jtypes predicates and other
 // read-only module functions). Its result is then a function of its (invariant) arguments.
+var readOnlyMemo = map[*ssa.Function]bool{}
+
 func readOnlyFunc(f *ssa.Function, depth int) bool {
-	if depth > 3 || len(f.Blocks) == 0 {
+	if depth == 0 {
+		if v, ok := readOnlyMemo[f]; ok {
+			return v
+		}
+		v := readOnlyFunc1(f, 0)
+		readOnlyMemo[f] = v
+		return v
+	}
+	return readOnlyFunc1(f, depth)
+}
+
+func readOnlyFunc1(f *ssa.Function, depth int) bool {
+	if depth > 8 || len(f.Blocks) == 0 {
 		return false
 	}
 	for _, b := range f.Blocks {
